@@ -257,9 +257,19 @@ impl Property for C01 {
         }
         // rows in which one merge-sensitive token (dots -> ellipsis, primes, bars, hyphens, ...) recurs with operands in
         // between: the sibling-run heuristics of clean_mathml count such tokens, and random rows almost never repeat one
-        let operand = prop_oneof![3 => tok_ident(), 2 => tok_number(), 1 => tok_text()];
-        let repeated = (sel(&[".", "-", "′", "'", "|", "_", ",", ":", "=", "!", "*", "…", "~", "/"]), proptest::collection::vec((proptest::bool::weighted(0.5), operand), 3..=9), 0..3u8).prop_map(|(t, items, wrap)| {
-            let kids: Vec<MNode> = items.into_iter().map(|(is_t, o)| if is_t { MNode::mo(t) } else { o }).collect();
+        // (the operands between them are tokens or small 2-D elements: a run may end at a leaf or at a non-leaf sibling;
+        // the recurring token is written as mo, mi or mtext)
+        let operand = prop_oneof![
+            3 => tok_ident(),
+            2 => tok_number(),
+            1 => tok_text(),
+            1 => (tok_ident(), tok_number()).prop_map(|(a, b)| MNode::el("mfrac", vec![a, b])),
+            1 => (tok_ident(), tok_number()).prop_map(|(a, b)| MNode::el("msup", vec![a, b])),
+            1 => tok_ident().prop_map(|a| MNode::el("msqrt", vec![a])),
+            1 => (tok_ident(), tok_number()).prop_map(|(a, b)| MNode::row(vec![a, MNode::mo("+"), b])),
+        ];
+        let repeated = (sel(&[".", "-", "′", "'", "|", "_", ",", ":", "=", "!", "*", "…", "~", "/", "\u{a0}", "_", "."]), sel(&["mo", "mo", "mi", "mtext"]), proptest::collection::vec((proptest::bool::weighted(0.5), operand), 3..=9), 0..3u8).prop_map(|(t, tag, items, wrap)| {
+            let kids: Vec<MNode> = items.into_iter().map(|(is_t, o)| if is_t { MNode::leaf(tag, t) } else { o }).collect();
             let row = MNode::row(kids);
             MNode::math(vec![match wrap {
                 0 => row,
